@@ -5,7 +5,7 @@ usage: eval_all_seeds.py [prefix]   e.g. r4-"""
 import json, os, shutil, subprocess, sys, tempfile
 from concurrent.futures import ProcessPoolExecutor
 VERIF = os.path.dirname(os.path.dirname(os.path.abspath(__file__)))
-PIDS = ["C01", "C02", "C03", "C04", "C05", "C06", "C08", "C09", "C10", "C11", "C12",
+PIDS = ["C01", "C02", "C03", "C04", "C05", "C06", "C07", "C08", "C09", "C10", "C11", "C12",
         "C13", "C14", "C15", "C16", "C17", "C18", "C19", "C20"]
 
 
